@@ -227,3 +227,45 @@ def giant_cases(draw, ops, tbin_ops=(), lengths='any', max_width=1100):
         n = min(n, b + 60)
     tr = draw(spiky_trace(vs, n))
     return {'formula': f, 'vars': vs, 'trace': tr}
+
+
+# --------------------------------------------------------------------------
+# integer samples beyond 2**53 (time stamps in nanoseconds since the epoch, 64-bit counters)
+# --------------------------------------------------------------------------
+
+@st.composite
+def bigint_cases(draw, past_only=False, dense=False):
+    """Two integer-valued signals x <= y of the order of 1.7e18 (doubles are 256 apart there) whose difference is small; the
+    formulas compare differences with small constants, so that every value the semantics defines is exact in integer
+    arithmetic and depends on digits a conversion to float would lose."""
+    vs = ['x', 'y']
+    n = draw(st.integers(1, 8))
+    t = draw(st.sampled_from([1700000000000000000, 2 ** 53 + 1, 2 ** 62 + 12345, 9007199254740993, 1700000000123456789]))
+    xs = []
+    for _ in range(n):
+        t += draw(st.integers(1, 3000))
+        xs.append(t)
+    ys = [xi + draw(st.sampled_from([0, 1, 2, 100, 900, 999, 1000, 1001, 1100, 2000, -1, -1000])) for xi in xs]
+    x, y = ('var', 'x'), ('var', 'y')
+    c = ('const', draw(st.sampled_from([0.0, 1.0, 1000.0, 900.0, 1001.0])))
+    d = ('bin', '-', y, x)
+    core = draw(st.sampled_from([
+        ('pred', '<=', d, c), ('pred', '>=', d, c), ('pred', '<', x, y), ('pred', '==', d, c), ('pred', '!==', d, c),
+        ('pred', '<=', ('un', 'abs', d), c), ('pred', '>', ('bin', '-', ('bin', '+', y, ('const', 1.0)), x), c), ('pred', '>=', y, x),
+        ('pred', '<=', ('bin', '-', x, y), ('un', 'neg', c))]))
+    ops_un = ['once', 'historically'] + ([] if dense else ['prev', 's_prev', 'rise', 'fall']) + ([] if past_only else ['always', 'eventually'] + ([] if dense else ['next']))
+    ops_tun = ['once', 'historically'] + ([] if past_only else ['always', 'eventually'])
+    k = draw(st.integers(0, 4 if dense else 5))
+    f = core
+    if k == 1:
+        f = ('un', 'not', core)
+    elif k == 2:
+        f = ('un', draw(st.sampled_from(ops_un)), core)
+    elif k == 3:
+        b = draw(st.integers(0, 3))
+        f = ('tun', draw(st.sampled_from(ops_tun)), draw(st.integers(0, b)), b, core)
+    elif k == 4:
+        f = ('bin', draw(st.sampled_from(['and', 'or', 'implies'])), core, ('pred', '<', x, y))
+    elif k == 5:
+        f = ('bin', 'since', core, ('pred', '>=', d, ('const', 0.0)))
+    return {'formula': f, 'vars': vs, 'trace': {'x': xs, 'y': ys}}
